@@ -19,7 +19,7 @@ from common import *  # noqa
 import json, itertools
 
 PARTS = ["newprec", "keys", "constfinal", "memo", "const", "logint", "bern", "exact", "quad", "lu",
-         "memoize", "hyp"]
+         "memoize", "hyp", "matfun"]
 
 
 class InjectedFault(Exception):
@@ -75,6 +75,23 @@ class Fresh:
         """code must assign `result`; returns repr(result) or 'EXC:<name>'"""
         self.p.stdin.write(json.dumps({"code": code}) + "\n")
         self.p.stdin.flush()
+        line = self.p.stdout.readline()
+        self.n += 1
+        d = json.loads(line)
+        return d["ok"] if "ok" in d else "EXC:" + d["exc"]
+
+    def eval_timeout(self, code, timeout):
+        """as eval, for code that may not terminate: None after `timeout` seconds (the zygote and its child are replaced)"""
+        import select
+        self.p.stdin.write(json.dumps({"code": code}) + "\n")
+        self.p.stdin.flush()
+        rd, _, _ = select.select([self.p.stdout], [], [], timeout)
+        if not rd:
+            subprocess.call(["pkill", "-9", "-P", str(self.p.pid)])
+            self.p.kill()
+            self.p.wait()
+            self.__init__()
+            return None
         line = self.p.stdout.readline()
         self.n += 1
         d = json.loads(line)
@@ -187,6 +204,21 @@ class Real:
         return self.Fcache[k]
 
 
+def _lu_key(spec):
+    """index spec of a recorded slice assignment: int, or [start, stop] (None allowed)"""
+    return slice(*spec) if isinstance(spec, list) else spec
+
+
+def _lu_value(mp, v, den):
+    """{"s": num} -> mpf(num)/den,  {"m": [[num, ...], ...]} -> matrix of mpf(num)/den  (at the current precision)"""
+    if "m" in v:
+        return mp.matrix([[mp.mpf(x) / den for x in row] for row in v["m"]])
+    return mp.mpf(v["s"]) / den
+
+
+LU_PRECS = [20, 30, 53, 100, 200]      # every precision an LU history can be at
+
+
 def replay_lu(inp):
     """re-run a recorded LU history (input of a `_LU-*` failing input) on the real code, faults omitted;
     returns True when the last LU_decomp(A) still differs from the decomposition of a copy of A"""
@@ -208,6 +240,8 @@ def replay_lu(inp):
                     res = None
             elif op[0] == "S":
                 A[op[1], op[2]] = mp.mpf(op[3]) / op[4]
+            elif op[0] == "L":
+                A[_lu_key(op[1]), _lu_key(op[2])] = _lu_value(mp, op[3], op[4])
             elif op[0] == "R":
                 A.rows = op[1]; A.cols = op[1]
             elif op[0] == "P":
@@ -221,6 +255,77 @@ def replay_lu(inp):
         return not (res[0] == ref[0] and res[1] == ref[1])
     finally:
         mp.prec = save
+
+
+MATFUN_CALLS = {"sqrtm": "mp.sqrtm(A)", "logm": "mp.logm(A)", "expm": "mp.expm(A)",
+                "powm_half": "mp.powm(A, mp.mpf(1)/2)", "powm_quarter": "mp.powm(A, mp.mpf(1)/4)"}
+
+
+def matfun_code(mats, hist, probe):
+    """source of a history of matrix-function calls followed by a probe; `result` = exact entries of the probe's value
+    (pairs of raw mpf tuples) or the name of the exception it raised.  Exceptions inside the history are swallowed (aborted
+    computations are part of the quantifier)."""
+    L = ["def V(t):",
+         "    z = [x.split(':') for x in t.split(',')]",
+         "    f = [libmp.from_man_exp(int(x[0]), int(x[1]) if len(x) > 1 else 0) for x in z]",
+         "    return mp.make_mpc((f[0], f[1])) if len(f) > 1 else mp.make_mpf(f[0])",
+         "def MAT(T):",
+         "    A = mp.matrix(len(T), len(T))",
+         "    for i, row in enumerate(T):",
+         "        for j, t in enumerate(row):",
+         "            A[i, j] = V(t)",
+         "    return A",
+         "def E(X):",
+         "    return [[(z._mpc_ if hasattr(z, '_mpc_') else (z._mpf_, libmp.fzero)) for z in row] for row in X.tolist()]",
+         "MATS = %r" % [T for _, T in mats]]
+    for k, fn, p in hist:
+        L += ["mp.prec = %d" % p, "A = MAT(MATS[%d])" % k, "try:", "    %s" % MATFUN_CALLS[fn], "except Exception:", "    pass"]
+    k, fn, p = probe
+    L += ["mp.prec = %d" % p, "A = MAT(MATS[%d])" % k, "try:", "    result = E(%s)" % MATFUN_CALLS[fn],
+          "except Exception as e:", "    result = 'RAISED:' + type(e).__name__"]
+    return "\n".join(L)
+
+
+def matfun_compare(here, alone, prec):
+    """('same'|'soft'|'bad', detail): exact comparison of two probe results (reprs from fresh processes).  Rounding level:
+    ||X_history - X_alone||_F <= 2^(8-prec) ||X_alone||_F, decided in exact rational arithmetic."""
+    from fractions import Fraction
+    if here == alone:
+        return "same", ""
+    if not (here.startswith("[[") and alone.startswith("[[")):
+        return "bad", "after the history: %s, alone: %s" % (here[:60], alone[:60])
+
+    def val(t):
+        s_, m_, e_, b_ = t
+        if not m_ and e_:
+            raise ValueError("non-finite")
+        v = Fraction(m_) * Fraction(2) ** e_
+        return -v if s_ else v
+    try:
+        X, Y = eval(here), eval(alone)
+        d2 = n2 = Fraction(0)
+        for rx, ry in zip(X, Y):
+            for (xr, xi), (yr, yi) in zip(rx, ry):
+                d2 += (val(xr) - val(yr)) ** 2 + (val(xi) - val(yi)) ** 2
+                n2 += val(yr) ** 2 + val(yi) ** 2
+    except ValueError:
+        return "bad", "non-finite entries"
+    if d2 <= Fraction(4) ** (8 - prec) * n2:
+        return "soft", ""
+    k = 0
+    while d2 > Fraction(4) ** (8 - prec + k) * n2 and k < 4000:
+        k += 1
+    return "bad", "relative difference to the value computed alone in a fresh process above 2^%d, allowed 2^%d" % (7 - prec + k, 8 - prec)
+
+
+def replay_matfun(inp):
+    """re-run a recorded history-vs-fresh input; True when the probe still depends on the history"""
+    fr = Fresh()
+    try:
+        a, b = fr.eval_timeout(inp["code_history"], 120.0), fr.eval_timeout(inp["code_probe"], 120.0)
+        return a is not None and b is not None and matfun_compare(a, b, inp["probe"][2])[0] == "bad"
+    finally:
+        fr.close()
 
 
 def py_newprec(p):
@@ -845,8 +950,29 @@ class CacheHarness:
             ver = 0
             nextver, nextsing = [1], [1000]
             grown = [False]
+            loose = [False]
             ops, steps, checks = [], [], []
             stale_checks = []
+            fills = {}          # id(LU matrix) -> (op index, contents version, precision) of the LU_decomp call that computed it
+
+            def classify():
+                """is LU_decomp of the current contents defined?  The model's F is the REAL function: evaluated on a copy at every
+                precision a history can reach.  False = computed everywhere, True = ZeroDivisionError everywhere, None = mixed /
+                other exception (the free instance of the model cannot express it: the history stops before this mutation)"""
+                seen = set()
+                save_ = mp.prec
+                try:
+                    for q in LU_PRECS:
+                        mp.prec = q
+                        try:
+                            mp.LU_decomp(A.copy(), use_cache=False); seen.add(False)
+                        except ZeroDivisionError:
+                            seen.add(True)
+                        except Exception:  # noqa
+                            seen.add(None)
+                finally:
+                    mp.prec = save_
+                return seen.pop() if len(seen) == 1 else None
             pyops = []
             entries0 = [[str(A[i, j]) for j in range(dim)] for i in range(dim)]
             orig_mnorm = mp.mnorm
@@ -869,6 +995,8 @@ class CacheHarness:
                         try:
                             res = mp.LU_decomp(A, use_cache=bool(uc))
                             tag = "c" if (prev is not None and res is prev) else "m"
+                            if tag == "m":
+                                fills[id(res[0])] = (len(ops), ver, mp.prec)
                         except InjectedFault:
                             res = None; tag = "x"
                         except ZeroDivisionError:
@@ -878,27 +1006,82 @@ class CacheHarness:
                         steps.append([tag, None, res])
                         if tag == "c":
                             stale_checks.append((len(ops) - 1, ver, mp.prec, res))
-                    elif k < 0.7:
+                    elif k < 0.62:
                         hi_ = A.rows - (1 if grown[0] else 0)      # keep the zero row/column of a grown matrix
                         i, j = r.randrange(hi_), r.randrange(hi_)
                         num_ = r.randint(1, 50) + (280 if i == j else 0)
                         A[i, j] = mp.mpf(num_) / 7
+                        sing = classify() if loose[0] else grown[0]
+                        if sing is None:
+                            self.bump("lu_histories_cut_at_precision_dependent_singularity")
+                            break
                         pyops.append(["S", i, j, num_, 7])
-                        if grown[0]:
+                        if sing:
                             ver = nextsing[0]; nextsing[0] += 1
                         else:
                             ver = nextver[0]; nextver[0] += 1
                         versions[ver] = A.copy()
                         ops.append("S %d" % ver); steps.append(["-", None, None])
-                    elif k < 0.85:
+                    elif k < 0.76:
+                        # slice assignment (the other branch of matrix.__setitem__): a row, a column or a block, from a matrix or a
+                        # scalar.  Matrix values and off-diagonal scalars keep the strict row diagonal dominance the other
+                        # mutations maintain; a scalar over a whole row / column / block does not, so whether LU_decomp of the new
+                        # contents exists is read off the real function (classify)
+                        hi_ = A.rows - (1 if grown[0] else 0)      # keep the zero row/column of a grown matrix
+                        shape = r.choice(["row_m", "col_m", "block_m", "row_s", "col_s", "block_s", "offdiag_s"])
+                        self.g.note("lu_slice", shape)
+                        full = [0, hi_] if grown[0] else [None, None]
+                        i, j = r.randrange(hi_), r.randrange(hi_)
+                        a_, b_ = sorted(r.sample(range(hi_ + 1), 2))
+                        c_, d_ = sorted(r.sample(range(hi_ + 1), 2))
+                        if shape in ("row_m", "row_s"):
+                            rs, cs, rr, cc = i, full, [i], list(range(hi_))
+                        elif shape in ("col_m", "col_s"):
+                            rs, cs, rr, cc = full, j, list(range(hi_)), [j]
+                        elif shape in ("block_m", "block_s"):
+                            rs, cs, rr, cc = [a_, b_], [c_, d_], list(range(a_, b_)), list(range(c_, d_))
+                        else:
+                            cc = [t for t in range(c_, d_)]
+                            rows_ok = [t for t in range(hi_) if t not in cc]
+                            if not rows_ok:
+                                continue
+                            i = r.choice(rows_ok)
+                            rs, cs, rr = i, [c_, d_], [i]
+                        if shape.endswith("_m"):
+                            v_ = {"m": [[r.randint(1, 50) + (280 if x == y else 0) for y in cc] for x in rr]}
+                        else:
+                            v_ = {"s": r.randint(1, 50)}
+                        A[_lu_key(rs), _lu_key(cs)] = _lu_value(mp, v_, 7)
+                        if shape in ("row_s", "col_s", "block_s"):
+                            loose[0] = True          # from here on the contents are not diagonally dominant by construction
+                        sing = classify()
+                        if sing is None:
+                            self.bump("lu_histories_cut_at_precision_dependent_singularity")
+                            break
+                        pyops.append(["L", rs, cs, v_, 7])
+                        if sing:
+                            ver = nextsing[0]; nextsing[0] += 1
+                        else:
+                            ver = nextver[0]; nextver[0] += 1
+                        versions[ver] = A.copy()
+                        ops.append("L %d" % ver); steps.append(["-", None, None])
+                        self.bump("lu_slice_assignments")
+                    elif k < 0.88:
                         if grown[0] or (A.rows > 1 and r.random() < 0.7):
                             A.rows = A.rows - 1; A.cols = A.cols - 1
                             grown[0] = False
-                            ver = nextver[0]; nextver[0] += 1
+                            sing = classify() if loose[0] else False
                         else:
                             A.rows = A.rows + 1; A.cols = A.cols + 1     # zero row/column: singular
                             grown[0] = True
+                            sing = True
+                        if sing is None:
+                            self.bump("lu_histories_cut_at_precision_dependent_singularity")
+                            break
+                        if sing:
                             ver = nextsing[0]; nextsing[0] += 1
+                        else:
+                            ver = nextver[0]; nextver[0] += 1
                         versions[ver] = A.copy()
                         ops.append("R %d" % ver); steps.append(["-", None, None]); pyops.append(["R", A.rows])
                     else:
@@ -927,6 +1110,25 @@ class CacheHarness:
                 return R.Fcache[key]
             # property level: a decomposition served from A._LU must be the one of the CURRENT contents, and
             # not less accurate than the current precision asks for
+            # (a) observed on the real object alone, no model involved: a decomposition served from A._LU that was computed BEFORE an
+            # assignment A[...] = ... (element or slice) describes contents that no longer exist
+            for idx, cur_ver, cur_prec, res in stale_checks:
+                fill = fills.get(id(res[0]))
+                if fill is None or fill[1] == cur_ver:
+                    continue
+                between = [o for o in pyops[fill[0] + 1:idx] if o[0] in ("S", "L")]
+                if not between:
+                    continue
+                self.lu_stale["assignment"] = self.lu_stale.get("assignment", 0) + 1
+                if self.lu_stale["assignment"] <= 2:
+                    how = "slice assignment" if any(o[0] == "L" for o in between) else "element assignment"
+                    self.find("matrices.matrices.matrix:_LU-assignment",
+                              {"what": "A._LU survives a %s: LU_decomp(A)/lu(A) serve the decomposition of the old contents" % how,
+                               "kind": "lu-history", "p0": p0, "matrix": entries0, "matrix_num_den": entries_nd, "ops": ops[:idx + 1],
+                               "pyops": pyops[:idx + 1], "served": "contents-version %d at %d bits" % (fill[1], fill[2]),
+                               "current": "contents-version %d at %d bits" % (cur_ver, cur_prec),
+                               "assignments_since_cached": between})
+            # (b) with the model's account of what is served
             for idx, cur_ver, cur_prec, res in stale_checks:
                 it = items[idx]
                 if it[0] != "c":
@@ -1078,10 +1280,58 @@ class CacheHarness:
                 self.find("ctx_mp.hypsum", {"what": "hypsum probe differs from fresh", "code": code, "prec": p, "here": repr(here), "fresh": fr})
             mp.prec = 53
 
+    # ---------------------------------------------------------------- matrix functions: history versus fresh process
+    def part_matfun(self, n):
+        """sqrtm / logm / powm / expm hold no cache of their own in the unchanged code; whatever state a call leaves behind (on the
+        context object, in the constant caches) must not change a later value beyond rounding level.  Black box: a history of
+        calls at other precisions and on other matrices, then a probe, all in ONE fresh process; the same probe alone in another
+        fresh process; the two results are compared exactly."""
+        import linalg_ops as LA
+        from props import C32 as c32
+        r = self.g.r
+        for case in range(n):
+            mg = LA.MGen(r.randrange(1 << 30), max_n=4, max_prec=200)
+            classes = ["rot_det", "rot_slow_small", "rot_slow_big", "left_half", "near_identity", "negaxis", "right_half"]
+            mats = []
+            for _ in range(r.choice([1, 2])):
+                cls = r.choice(classes)
+                nn = r.choice([1, 2, 2, 3])
+                if cls == "right_half":
+                    shape, A = c32.diagonalizable(mg, nn, 53, r.random() < 0.35, True)
+                else:
+                    shape, A = c32.branch_matrix(mg, cls, nn)
+                mats.append((cls, LA.toks_of(A)))
+            need = max(c32._bits(LA.from_toks(T)) for _, T in mats)
+            lo = max(30, need)
+            fns = ["sqrtm"] * 3 + ["logm", "powm_half", "powm_quarter", "expm"]
+            ps = [max(20, p_) for p_ in prec_history(self.g, r.randint(1, 4), lo, 200)]
+            hist = [(r.randrange(len(mats)), r.choice(fns), p_) for p_ in ps]
+            up = min(200, max(ps) + r.choice([23, 47, 70]))
+            probe = (0, r.choice(fns), r.choice([r.randint(lo, 200), max(ps), up, up]))
+            self.g.note("matfun_class", mats[0][0])
+            self.g.note("matfun_probe", probe[1])
+            code_h = matfun_code(mats, hist, probe)
+            code_p = matfun_code(mats, [], probe)
+            here = self.fresh.eval_timeout(code_h, 60.0)
+            alone = self.fresh.eval_timeout(code_p, 60.0) if here is not None else None
+            if here is None or alone is None:
+                self.bump("matfun_no_result_within_60s")
+                continue
+            self.bump("matfun_steps", len(hist))
+            self.bump("matfun_probes")
+            st, detail = matfun_compare(here, alone, probe[2])
+            if st == "soft":
+                self.softbump("matfun_probe_differs_at_rounding_level")
+            elif st == "bad":
+                self.find("matrices.calculus.%s:history" % probe[1].split("_")[0],
+                          {"what": "%s at prec %d depends on the calls made before it in the process (%s)" % (probe[1], probe[2], detail),
+                           "kind": "history-vs-fresh", "matrices": mats, "history": hist, "probe": probe,
+                           "code_history": code_h, "code_probe": code_p})
+
     # ----------------------------------------------------------------
     def run(self, n, parts):
         scale = {"newprec": 1, "keys": 3, "constfinal": 20, "memo": 1, "const": 1, "logint": 1, "bern": 1,
-                 "exact": 0.5, "quad": 0.5, "lu": 1, "memoize": 1, "hyp": 0.3}
+                 "exact": 0.5, "quad": 0.5, "lu": 1, "memoize": 1, "hyp": 0.3, "matfun": 0.5}
         for p in parts:
             t = time.time()
             getattr(self, "part_" + p)(max(1, int(n * scale[p])))
